@@ -203,6 +203,26 @@ def check_fake(case):
         shutil.rmtree(fvdir, ignore_errors=True)
 
 
+def check_fake_hg(case):
+    """the same model against the hg command set (fake hg: `hg tags` prints 'name   rev:node', the branch listing
+    prints one tag per line)"""
+    if "discard" in case:
+        return discard(case["discard"])
+    tmp = tempfile.mkdtemp(prefix="c09h_")
+    fvdir = tempfile.mkdtemp(prefix="c09hfv_")
+    try:
+        projgen.write_file(tmp, "bumpver.toml", config_text(case))
+        fv = fakevcs.FakeVCS(tmp, "hg", state_dir=fvdir)
+        fv.set("tags_all", "tip                              99:0123456789ab\n" + "".join("%-32s %d:%012x\n" % (t, i, i * 7919) for i, (t, _m) in enumerate(case["tags"])))
+        fv.set("tags_merged", "".join(t + "\n" for t, m in case["tags"] if m))
+        env = fv.env()
+        date = dt.date.fromisoformat(case["date"])
+        return judge(case, lambda args: bv.run(args, cwd=tmp, env=env, today=date), False)
+    finally:
+        shutil.rmtree(tmp, ignore_errors=True)
+        shutil.rmtree(fvdir, ignore_errors=True)
+
+
 def check_real(case):
     if "discard" in case:
         return discard(case["discard"])
@@ -233,6 +253,7 @@ def check_real(case):
 
 PARTS = [
     Part("fake-git-tags", check=check_fake, strategy=lambda: dp.cases(build, size=700), n={"quick": 12000, "thorough": 400000}, max_discard=0.1),
+    Part("fake-hg-tags", check=check_fake_hg, strategy=lambda: dp.cases(build, size=700), n={"quick": 2400, "thorough": 60000}, max_discard=0.1),
     Part("real-git-tags", check=check_real, strategy=lambda: dp.cases(lambda d: build(d, True), size=700), n={"quick": 160, "thorough": 3000}, max_discard=0.1),
 ]
 
@@ -241,6 +262,6 @@ MANIFEST = {
             "--ignore-vcs-tag, through `show` and `update --dry` against a fake git (bulk) and real repositories with two "
             "branches (sample); a reference model computes the admissible start versions.",
     "note": "Which tags 'match the pattern' is decided by the reference recogniser; week-53 tags are not generated (finding F1). "
-            "hg scope handling is not exercised (no Mercurial).",
+            "hg only through the fake executable (listing formats as documented for `hg tags` / `hg log --template`).",
     "technique": "property-based testing (Hypothesis) against a reference model; differential sample with real git",
 }
